@@ -28,7 +28,13 @@ def plan(tier):
                   bounds='3 threads, one round each; CAS retries / queue walks <= 4 iterations, resume recursion <= 3 (bound-exceeded events are queried); SC interleavings',
                   outside='more than two queued waiters under real concurrency (sequential arrival orders of up to 4 waiters are checked by unit fifo_seq); weak-memory executions')]
     if tier == 'quick':
-        units = units[:1]          # the 3-thread first-come-first-served scenarios need minutes of solver time each: thorough tier
+        units = [x for x in units if x['name'] != 'mutex_fifo']          # the 3-thread first-come-first-served scenarios need many minutes of solver time each: thorough tier
+    # lost request under three contenders: the owner releases and comes straight back as a requester while two more requests arrive
+    units.append(dict(engine='e2', name='mutex_lost3', tu='C08lost.cpp', mode='sc', scenarios=[dict(name='lost3', nthreads=3, defines=[])], opts={'loop_bound': 5, 'rec_bound': 2},
+                      timeout_s=1500 if tier == 'quick' else 3000,
+                      space='the owner releases and immediately requests again while two further threads request (awaiter protocol, nobody releases afterwards): three requests can pile up between the '
+                            'two CAS operations of one subscribe(); at the end exactly one party owns the mutex and every other request is still registered on the request stack or in the FIFO queue',
+                      bounds='3 threads; CAS retries / queue walks <= 4; SC interleavings', outside='4 or more threads; what later releases do with the queue (C07 / fifo scenarios)'))
     u = C07.plan(tier)[0]
     u = dict(u); u['name'] = 'mutex_sc'
     units.append(u)
